@@ -525,7 +525,11 @@ def family_phase(ctx, builds=None):
         ok, log, dt = build(mods)
         fam["build_s"] = round(dt, 1)
         ctx.counters["family_build_s"] = round(dt, 1)
-        names = ts.gen_theorems(items, builds)
+        parsers = ctx.prop == "C19"    # lean/Gen/Parsers.lean (imported by Family/C19.lean): the rules of `from_schema`
+        names = ts.gen_theorems(items, builds, parsers)
+        if parsers:
+            fam["parser_rules"] = {it[0]: ("rulesOk" if ts.PARSERS.get(it[0]) else "not translated (clear_mark closure)")
+                                   for it in items if it[2]}
         fnames = []
         for m in ts.family_modules(ctx.prop):
             fnames += theorem_names(ctx.prop, os.path.join(LEAN, *m.split(".")) + ".lean")
